@@ -225,6 +225,22 @@ CLAIMED = {
        "under a start barrier on 16 cores, not enumerated); the translator's reading of assign.rs; memory safety is rustc's (no unsafe in the "
        "crate, checked by Gen.LockShape).",
   technique="Lean 4 proof over an atomic-step concurrency model + lock-shape translator + real-thread correspondence against all interleavings of the model", ref="DESIGN.md §6 C16"),
+ "C03": dict(
+  text="Lean 4 theorems, for ALL well-formed types of the type model (whose agreement with src/variable/type.rs is checked by C10's "
+       "correspondence): every static query the checker unwraps after an admissibility test answers - return_type after is_function, "
+       "mut_element_type and mut_assign_type after is_mut, min_tuple_len after is_tuple, flatten_tuple (of the right length) whenever "
+       "tuple_len answers, field_type after has_field, index_result after can_be_indexed on every type other than never; the never "
+       "type is proved to pass the matches-based tests while the queries answer None on it (the defect recorded as F22/F23, found at "
+       "exactly the point this hypothesis excludes); iterator shapes the reductions accept have an element type. Over the regenerated "
+       "grammar and the regenerated list of `Rule::x` mentions in the crate: every rule the walking code matches on is a non-silent rule "
+       "(a silent rule never produces a pair, so an arm on it is dead), start rules exist, the grammar is closed. NOT proved: that no other "
+       "unwrap / unreachable / index in parser glue, instruction construction and folding can fire - searched on the implementation with "
+       "catch_unwind around Code::parse (+ return_type), Variable::from_str and Type::from_str: operator x operand-type matrix over 45 "
+       "types (all 34 binary operators, ~100 templates), the same over literals (folding) and failing folds in 30 positions, exhaustive "
+       "short token sequences, random text, mutations of valid programs, doc constructs incl. imports of 14 file states.",
+  note="Lean kernel; pest and unescaper are trusted; the translator's reading of the grammar and of Rule:: mentions; inputs that exhaust "
+       "stack or memory are outside the property (allocation-size panics on `[x; MAX_INT]` are counted, not reported).",
+  technique="Lean 4 proof of guarded-query totality over the type model and of grammar / walker consistency + exhaustive and generated no-panic search on the three parse entry points", ref="DESIGN.md §6 C03"),
 }
 NOT_YET = "machinery for this property is not built yet in this round (planned, see DESIGN.md §6)"
 
